@@ -1,7 +1,7 @@
 ------------------------------ MODULE InterpMC ------------------------------
 (* B1 for C34 (exact, linear mode): for every family <<step, maxn, degrees>> every *)
 (* grid of 2..maxn points drawn from the dyadic pool {step/S, 2 step/S, ..., 1} x  *)
-(* every degree of the family (InitGrids: seeds (two smallest points, degree) fan  *)
+(* (and the point 0) x every degree of the family (InitGrids: seeds (two smallest points, degree) fan  *)
 (* out to all grids in Next so that the workers share the evaluation); and        *)
 (* (InitRaw) every raw point list of 1-4 points from {1/4..1} (unsorted, repeated *)
 (* points, too few points) x degree 0..3 for the rejection clause.                *)
@@ -19,7 +19,7 @@ vars == <<phase, raw, deg, fam>>
 
 Asc(s) == Eager([k \in 1..Cardinality(s) |->
              CHOOSE e \in s : Cardinality({x \in s : x < e}) = k - 1])
-Pool(step) == {k \in 1..S : k % step = 0}
+Pool(step) == {k \in 0..S : k % step = 0}   \* 0 included: a linear grid may start at x = 0
 InitGrids ==
   /\ phase = "seed"
   /\ fam \in Families
